@@ -89,6 +89,19 @@ class Genomes:
 		assert self.items[-1]['label'] == it['label'], (self.items[-1]['label'], it['label'])
 		return t
 
+	def add_symlink(self, i):
+		"""A symbolic link with a name of its own pointing at the file of item i (the label is derived from the name that was GIVEN).
+		-> index of the new item."""
+		it = self.items[i]
+		t = len(self.items)
+		ext = ''.join(c for c in ('.fasta', '.fa', '.fna', '') if it['name'].endswith(c))[:6] or ''
+		name = f'link_{t}{self.rng.choice([".fasta", ".fa", ""])}' + ('.gz' if it['name'].endswith('.gz') else '')
+		(self.dir / 'store').mkdir(exist_ok=True)
+		p = self.dir / name
+		os.symlink(it['path'], p)
+		self.items.append(dict(path=p, contigs=it['contigs'], label=expected_label(name), name=name))
+		return t
+
 	def sig(self, i, k, prefix):
 		key = (i, k, prefix)
 		if key not in self._sig:
